@@ -299,8 +299,31 @@ Definition thread_eqb (a b : thread) : bool :=
   optnat_eqb (t_gate a) (t_gate b) && list_eqb act_eqb (t_prog a) (t_prog b) && pc_eqb (t_pc a) (t_pc b).
 Definition cell_eqb (a b : cell) : bool :=
   Z.eqb (c_val a) (c_val b) && Bool.eqb (c_closed a) (c_closed b) && Bool.eqb (c_set a) (c_set b).
+(* State identification used by the matcher.  A cell is DEAD when its channel is closed, it is
+   not the current cell, and no goroutine holds a reference to it (as the cell a Set is about to
+   close, or as the cell a Value obtained).  A dead cell can never be observed again (the pointer
+   only moves to fresh cells), so two states that differ only in the values of dead cells have the
+   same future behaviour; the matcher identifies them.  This keeps the set of candidate states
+   small when many overlapping Sets were never observed by a Value. *)
+Definition refers (k : nat) (x : thread) : bool :=
+  match t_pc x with
+  | PSetSwapped (Some j) | PValGot j | PValPolled j _ | PWait j => Nat.eqb j k
+  | _ => false
+  end.
+
+Definition dead (s : st) (k : nat) (c : cell) : bool :=
+  c_closed c && negb (optnat_eqb (ptr s) (Some k)) && negb (existsb (refers k) (ths s)).
+
+Fixpoint norm_from (s : st) (k : nat) (cs : list cell) : list cell :=
+  match cs with
+  | [] => []
+  | c :: t => (if dead s k c then mkCell 0%Z true true else c) :: norm_from s (S k) t
+  end.
+
+Definition norm_cells (s : st) : list cell := norm_from s 0 (cells s).
+
 Definition st_eqb (a b : st) : bool :=
-  list_eqb thread_eqb (ths a) (ths b) && list_eqb cell_eqb (cells a) (cells b)
+  list_eqb thread_eqb (ths a) (ths b) && list_eqb cell_eqb (norm_cells a) (norm_cells b)
   && optnat_eqb (ptr a) (ptr b) && list_eqb Bool.eqb (gates a) (gates b).
 
 (* the initial state of a scenario: thread t has the configured start gate and program *)
